@@ -1,5 +1,7 @@
 package checks
 
+import "strings"
+
 // Registry maps a property id to its decision procedure.
 var Registry = map[string]func(*Ctx) (int, error){}
 
@@ -13,21 +15,56 @@ var wireAssume = []string{
 
 func init() {
 	Registry["C01"] = func(c *Ctx) (int, error) {
-		return RunWire(c, &WireSpec{GenModule: "Gen_Wire", GenConsts: map[string]string{"OptMode": `"default"`}, GenInvs: wireTheorems,
+		return RunWire(c, &WireSpec{GenModule: "Gen_Wire", GenConsts: map[string]string{"OptMode": `"default"`, "ValMode": `"all"`}, GenInvs: wireTheorems,
 			Op: "codec", JudgeProp: "C01", DevProps: []string{"C01", "C02", "C12"}, Level: "model_checking",
 			Rule:   "cases = TLC-enumerated (shape x context x boundary value); a case is non-trivial if its encoding has more than 2 bytes; every encoder output is decoded by every decoder",
 			Assume: wireAssume, Nontrivial: func(s *wireSchema, cs *wireCase) bool { return len(cs.Enc) > 2 }})
 	}
 	Registry["C02"] = func(c *Ctx) (int, error) {
-		return RunWire(c, &WireSpec{GenModule: "Gen_Wire", GenConsts: map[string]string{"OptMode": `"default"`}, GenInvs: wireTheorems,
+		return RunWire(c, &WireSpec{GenModule: "Gen_Wire", GenConsts: map[string]string{"OptMode": `"default"`, "ValMode": `"all"`}, GenInvs: wireTheorems,
 			Op: "codec", JudgeProp: "C02", DevProps: []string{"C02", "C12"}, Level: "model_checking",
 			Rule:   "cases = TLC-enumerated (shape x context x boundary value) x {MarshalBebop, MarshalBebopTo into 00/FF/A5-filled buffers with and without slack, EncodeBebop}; non-trivial if the encoding has more than 2 bytes",
 			Assume: wireAssume, Nontrivial: func(s *wireSchema, cs *wireCase) bool { return len(cs.Enc) > 2 }})
 	}
 	Registry["C03"] = func(c *Ctx) (int, error) {
-		return RunWire(c, &WireSpec{GenModule: "Gen_Wire", GenConsts: map[string]string{"OptMode": `"default"`}, GenInvs: wireTheorems,
+		return RunWire(c, &WireSpec{GenModule: "Gen_Wire", GenConsts: map[string]string{"OptMode": `"default"`, "ValMode": `"all"`}, GenInvs: wireTheorems,
 			Op: "codec", JudgeProp: "C03", DevProps: []string{"C03", "C02", "C12"}, Level: "model_checking",
 			Rule:   "cases = TLC-enumerated (shape x context x boundary value incl. both orders of two-entry maps); reference bytes come from BebopWire.Enc; non-trivial if the encoding has more than 2 bytes",
 			Assume: wireAssume, Nontrivial: func(s *wireSchema, cs *wireCase) bool { return len(cs.Enc) > 2 }})
+	}
+}
+
+func init() {
+	Registry["C12"] = func(c *Ctx) (int, error) {
+		return RunWire(c, &WireSpec{GenModule: "Gen_Wire", GenConsts: map[string]string{"OptMode": `"cover"`, "ValMode": `"first"`}, GenInvs: []string{"Export"},
+			Op: "generate", JudgeProp: "C12", DevProps: []string{"C12"}, Level: "model_checking",
+			Rule: "programs = TLC-enumerated (field shape x context x generator option set), one package each; every accepted package is compiled alone with go build against /repo's bebop and iohelp; a program is non-trivial if its shape is a container or a user-defined type",
+			Assume: []string{"the Go compiler is the oracle for 'compiles' (no specification stands in for it)", "TLC enumerates the program universe; the acceptance predicate and the known-uncompilable shape classes are TLA+ predicates"},
+			Nontrivial: func(s *wireSchema, cs *wireCase) bool { return strings.Contains(s.Tag, "<") || strings.Contains(s.Tag, ":") || !strings.Contains("bool byte uint8 uint16 int16 uint32 int32 uint64 int64 float32 float64 string guid date", s.Tag) }})
+	}
+}
+
+func init() {
+	Registry["C09"] = func(c *Ctx) (int, error) {
+		mod := 6
+		if c.Tier == "thorough" {
+			mod = 3
+		}
+		return RunWire(c, &WireSpec{GenModule: "Gen_Wire", GenConsts: map[string]string{"OptMode": `"cover"`, "ValMode": `"all"`}, GenInvs: []string{"Export"},
+			Op: "codec", JudgeProp: "C09", DevProps: []string{"C09", "C12"}, Level: "model_checking",
+			Rule: "cases = TLC-enumerated (shape x context x value x option set: pairwise cover of the 2^5 sets in quick, all 32 in thorough), one generated package per (schema, option set); each schema is generated under the empty set and a seed-rotating third (quick) or quarter (thorough) of the other sets; a seed-dependent 1/6 (quick) or 1/3 (thorough) of the values is executed per package, at least one each; non-trivial if the option set is not empty",
+			Assume: wireAssume,
+			CaseFilter: func(s *wireSchema, cs *wireCase) bool {
+				// packages: every schema under the empty set and under a seed-rotating third (quarter) of the other sets
+				pm := 3
+				if c.Tier == "thorough" {
+					pm = 4
+				}
+				if cs.Mask != 0 && (cs.Sid+cs.Mask+c.Seed)%pm != 0 {
+					return false
+				}
+				return cs.Vi == 1 || (cs.Sid+cs.Mask*5+cs.Vi+c.Seed)%mod == 0
+			},
+			Nontrivial: func(s *wireSchema, cs *wireCase) bool { return cs.Mask != 0 }})
 	}
 }
